@@ -47,6 +47,8 @@ def main():
         old = json.load(open(os.path.join(ROOT, "seeded", sid, "meta.json")))
         meta["checks"] = {k: v for k, v in old.get("checks", {}).items() if k not in props}
         meta["properties"] = sorted(set(old.get("properties", [])) | set(props))
+        if old.get("first_outcome"):
+            meta["first_outcome"] = old["first_outcome"]      # hand-recorded: what the check said before it was strengthened
     except Exception:
         pass
     for p in props:
